@@ -169,6 +169,11 @@ func c17Check(c c17Case, res *engine.JobResult) {
 		if eca[eca[ea[ch]]] != ea[ch] {
 			bad("complement-involution", "encoded complement twice gives %d want %d", eca[eca[ea[ch]]], ea[ch])
 		}
+		// the same for the hard-gap encoding (hardGaps readers): it differs from the other one in the code of '-'
+		eh := encoding.MakeEncodingArrayHardGaps()
+		if eca[eh[ch]] != eh[want] {
+			bad("complement-encoded-hardgaps", "encoded complement of the hard-gap encoding %d of %q = %d want %d (%q)", eh[ch], ch, eca[eh[ch]], eh[want], want)
+		}
 		if !isACGT(ch) {
 			res.Nontrivial++
 		}
@@ -219,6 +224,27 @@ func c17Check(c c17Case, res *engine.JobResult) {
 		}
 		if g := efr.Decode().Seq; g != strings.ToUpper(s) {
 			bad("decode", "Encode().Decode() = %q", g)
+		}
+		// records as the hardGaps readers produce them: decode, and complement twice, give the sequence back
+		for _, hard := range []bool{false, true} {
+			ea := encoding.MakeEncodingArray()
+			if hard {
+				ea = encoding.MakeEncodingArrayHardGaps()
+			}
+			enc := make([]byte, len(s))
+			for i := 0; i < len(s); i++ {
+				enc[i] = ea[s[i]]
+			}
+			hr := fastaio.EncodedFastaRecord{ID: "x", Seq: enc}
+			if g := hr.Decode().Seq; g != strings.ToUpper(s) {
+				bad("decode", "EncodedFastaRecord.Decode of the encoding (hardgaps=%v) = %q", hard, g)
+			}
+			if g := encoding.DecodeToString(enc); g != strings.ToUpper(s) {
+				bad("decode", "DecodeToString of the encoding (hardgaps=%v) = %q", hard, g)
+			}
+			if g := hr.ReverseComplement().Decode().Seq; g != strings.ToUpper(want) {
+				bad("revcomp-encoded-hardgaps", "ReverseComplement of the encoding (hardgaps=%v) decodes to %q want %q", hard, g, strings.ToUpper(want))
+			}
 		}
 		if len(s) > 1 {
 			res.Nontrivial++
